@@ -162,6 +162,40 @@ func solveOne(vc *VC, o *Obligation, workDir string, idx int, secs int, seed int
 			}
 		}
 	}
+	// last resort: other random seeds for the split cases that are still open
+	if whole.Status != "failed" {
+		allOK := true
+		for k, sub := range subs {
+			if sub.Status == "discharged" {
+				continue
+			}
+			ok := false
+			for _, sd := range []int{7, 42} {
+				retry := &Obligation{Name: o.Name, Reach: o.Reach, Goal: o.Goal, NDecls: o.NDecls, Inputs: o.Inputs}
+				solveVariant(ctx, vc, retry, workDir, idx, secs, sd, cases[k], fmt.Sprintf(".case%d.seed%d", k, sd))
+				if retry.Status == "discharged" {
+					subs[k] = retry
+					ok = true
+					break
+				}
+				if retry.Status == "failed" {
+					subs[k] = retry
+					break
+				}
+			}
+			if !ok {
+				allOK = false
+				break
+			}
+		}
+		if allOK {
+			o.Status = "discharged"
+			o.Solver = "split+seed/" + subs[0].Solver
+			o.Seconds = time.Since(t0).Seconds()
+			o.Output = fmt.Sprintf("discharged by case split into %d path cases (some with another random seed)", len(cases))
+			return
+		}
+	}
 	adopt(whole)
 	for k, sub := range subs {
 		if sub.Status != "discharged" {
